@@ -184,7 +184,8 @@ theorem vm_sound_from_atom_fwd (c : Ctx) (hc : HexCtx c) (x : Re) (hx : AtomLeaf
     (buf : Bytes) (start : Nat) (hst : start ≤ buf.size) (fl : VmFlags) (hb : fl.backwards = false) (hsc : fl.scan = false)
     (fuel : Nat) (m : Int) (cl : List Nat)
     (h : exec { code := (emitCode false (c.fill x)).toArray, entry := holePos c 0, buf := buf, start := start, fl := fl, syncFuel := fuel } = .done m cl) :
-    ∀ L, L ∈ cl → ∃ e, Re.Matches (specFlagsG fl) buf x start (start + e) ∧ c.After (specFlagsG fl) buf x (start + e) (start + L) := by
+    (∀ L, L ∈ cl → ∃ e, Re.Matches (specFlagsG fl) buf x start (start + e) ∧ c.After (specFlagsG fl) buf x (start + e) (start + L)) ∧
+    (0 ≤ m → ∃ e, Re.Matches (specFlagsG fl) buf x start (start + e) ∧ c.After (specFlagsG fl) buf x (start + e) (start + m.toNat)) := by
   obtain ⟨e, he⟩ : ∃ e : Env, e = { code := (emitCode false (c.fill x)).toArray, entry := holePos c 0, buf := buf, start := start, fl := fl, syncFuel := fuel } := ⟨_, rfl⟩
   rw [← he] at h
   have hwf : WF (c.fill x) := fill_wf (atomLeaf_wf hx) hc
@@ -204,18 +205,27 @@ theorem vm_sound_from_atom_fwd (c : Ctx) (hc : HexCtx c) (x : Re) (hx : AtomLeaf
   have hentry : e.entry = holePos c 0 := by subst he; rfl
   have hstart : ValidF (lower (c.fill x)) 0 0 { ip := e.entry } .run ∨ AtEnd (clen (lower (c.fill x))) 0 { ip := e.entry } .run := by
     left; simp only [ValidF]; rw [hentry]; exact valid_hole hx hc [] rfl hseg
-  obtain ⟨g1, _⟩ := exec_sound e m cl h
-  intro L hL
-  obtain ⟨f, md, hr, hm⟩ := g1 L hL
-  obtain ⟨s0, _, _, k3, k4⟩ := match_lang_at e (fwdDir e hb' hrun) hseg hmatch hstart hr hm
+  obtain ⟨g1, g2⟩ := exec_sound e m cl h
   have hsc' : e.fl.scan = false := by subst he; exact hsc
-  rw [k3 hsc', hentry] at k4
-  obtain ⟨e', t, m1, m2, m3⟩ := lang_hole_fwd (specFlagsG e.fl) e.buf e.start hx hc Keps [] 0 L hseg k4
-  simp only [Keps] at m3
-  subst m3
-  subst he
-  simp only [Nat.add_zero] at m1
-  exact ⟨e', m1, m2⟩
+  have key : ∀ (L : Nat) (f : Fiber) (md : Mode), Reach e f md L → u8 e.code f.ip = OP_MATCH →
+      ∃ e', Re.Matches (specFlagsG e.fl) e.buf x e.start (e.start + e') ∧ c.After (specFlagsG e.fl) e.buf x (e.start + e') (e.start + L) := by
+    intro L f md hr hm
+    obtain ⟨s0, _, _, k3, k4⟩ := match_lang_at e (fwdDir e hb' hrun) hseg hmatch hstart hr hm
+    rw [k3 hsc', hentry] at k4
+    obtain ⟨e', t, m1, m2, m3⟩ := lang_hole_fwd (specFlagsG e.fl) e.buf e.start hx hc Keps [] 0 L hseg k4
+    simp only [Keps] at m3
+    subst m3
+    simp only [Nat.add_zero] at m1
+    exact ⟨e', m1, m2⟩
+  constructor
+  · intro L hL
+    obtain ⟨f, md, hr, hm⟩ := g1 L hL
+    have := key L f md hr hm
+    subst he; exact this
+  · intro hm0
+    obtain ⟨f, md, hr, hm⟩ := g2 hm0
+    have := key _ f md hr hm
+    subst he; exact this
 
 
 /-! ### backwards: the code that follows the node's instruction in the backward code -/
@@ -402,7 +412,8 @@ theorem vm_sound_from_atom_bwd (c : Ctx) (hc : HexCtx c) (x : Re) (hx : AtomLeaf
     (buf : Bytes) (start : Nat) (hst : start ≤ buf.size) (fl : VmFlags) (hb : fl.backwards = true) (hsc : fl.scan = false)
     (fuel : Nat) (m : Int) (cl : List Nat)
     (h : exec { code := (emitCode true (c.fill x)).toArray, entry := bwdPos x c 0, buf := buf, start := start, fl := fl, syncFuel := fuel } = .done m cl) :
-    ∀ L, L ∈ cl → L ≤ start ∧ c.Before (specFlagsG fl) buf x (start - L) start := by
+    (∀ L, L ∈ cl → L ≤ start ∧ c.Before (specFlagsG fl) buf x (start - L) start) ∧
+    (0 ≤ m → m.toNat ≤ start ∧ c.Before (specFlagsG fl) buf x (start - m.toNat) start) := by
   obtain ⟨e, he⟩ : ∃ e : Env, e = { code := (emitCode true (c.fill x)).toArray, entry := bwdPos x c 0, buf := buf, start := start, fl := fl, syncFuel := fuel } := ⟨_, rfl⟩
   rw [← he] at h
   have hwf : WF (rev (c.fill x)) := rev_fill_wf hx hc
@@ -426,19 +437,28 @@ theorem vm_sound_from_atom_bwd (c : Ctx) (hc : HexCtx c) (x : Re) (hx : AtomLeaf
     rcases valid_after_hole hx hc [] rfl hseg with h' | h'
     · exact .inl h'
     · exact .inr ⟨h', rfl, rfl, rfl⟩
-  obtain ⟨g1, _⟩ := exec_sound e m cl h
-  intro L hL
-  obtain ⟨f, md, hr, hm⟩ := g1 L hL
-  obtain ⟨s0, _, k2, k3, k4⟩ := match_lang_at e (bwdDir e hb' hrun) hseg hmatch hstart hr hm
+  obtain ⟨g1, g2⟩ := exec_sound e m cl h
   have hsc' : e.fl.scan = false := by subst he; exact hsc
-  rw [k3 hsc', hentry] at k4
-  obtain ⟨t, m2, m3⟩ := lang_after_hole_bwd (specFlagsG e.fl) e.buf e.start hx hc Keps [] 0 L rfl hseg k4
-  simp only [Keps] at m3
-  subst m3
-  have hle : t ≤ e.start := k2.2
-  subst he
-  simp only [Nat.sub_zero] at m2
-  exact ⟨hle, m2⟩
+  have key : ∀ (L : Nat) (f : Fiber) (md : Mode), Reach e f md L → u8 e.code f.ip = OP_MATCH →
+      L ≤ e.start ∧ c.Before (specFlagsG e.fl) e.buf x (e.start - L) e.start := by
+    intro L f md hr hm
+    obtain ⟨s0, _, k2, k3, k4⟩ := match_lang_at e (bwdDir e hb' hrun) hseg hmatch hstart hr hm
+    rw [k3 hsc', hentry] at k4
+    obtain ⟨t, m2, m3⟩ := lang_after_hole_bwd (specFlagsG e.fl) e.buf e.start hx hc Keps [] 0 L rfl hseg k4
+    simp only [Keps] at m3
+    subst m3
+    have hle : t ≤ e.start := k2.2
+    simp only [Nat.sub_zero] at m2
+    exact ⟨hle, m2⟩
+  constructor
+  · intro L hL
+    obtain ⟨f, md, hr, hm⟩ := g1 L hL
+    have := key L f md hr hm
+    subst he; exact this
+  · intro hm0
+    obtain ⟨f, md, hr, hm⟩ := g2 hm0
+    have := key _ f md hr hm
+    subst he; exact this
 
 /-- **Verification around the atom is sound** (`_yr_scan_verify_re_match`, hex strings): if the forward code entered at the
     atom's node reports `lf` and the backward code entered behind that node reports `lb`, the whole pattern matches
@@ -452,8 +472,8 @@ theorem verify_from_atom_sound (c : Ctx) (hc : HexCtx c) (x : Re) (hx : AtomLeaf
     (hbw : exec { code := (emitCode true (c.fill x)).toArray, entry := bwdPos x c 0, buf := buf, start := o, fl := flb, syncFuel := fuel2 } = .done m2 c2)
     (lf lb : Nat) (hlf : lf ∈ c1) (hlb : lb ∈ c2) :
     lb ≤ o ∧ Re.Matches (specFlagsG flf) buf (c.fill x) (o - lb) (o + lf) := by
-  obtain ⟨e, k1, k2⟩ := vm_sound_from_atom_fwd c hc x hx hszf buf o ho flf hf1 hf2 fuel1 m1 c1 hfw lf hlf
-  obtain ⟨k3, k4⟩ := vm_sound_from_atom_bwd c hc x hx hszb buf o ho flb hb1 hb2 fuel2 m2 c2 hbw lb hlb
+  obtain ⟨e, k1, k2⟩ := (vm_sound_from_atom_fwd c hc x hx hszf buf o ho flf hf1 hf2 fuel1 m1 c1 hfw).1 lf hlf
+  obtain ⟨k3, k4⟩ := (vm_sound_from_atom_bwd c hc x hx hszb buf o ho flb hb1 hb2 fuel2 m2 c2 hbw).1 lb hlb
   rw [← hsame] at k4
   exact ⟨k3, through_sound c x _ _ ⟨o, o + e, k4, k1, k2⟩⟩
 
